@@ -43,7 +43,7 @@ def run(ctx):
     evaluations = 0
     reqs = []
     samples = []
-    n_streams = ctx.scale(100, 1500)
+    n_streams = ctx.scale(100, 700)
     hid = 0
     for si in range(n_streams):
         prep = rng.choice(["server_fresh", "server_mid", "client_mid", "server_binding"])
